@@ -7,10 +7,12 @@ package sim
 import (
 	"encoding/json"
 	"fmt"
+	aslisters "github.com/pingcap/advanced-statefulset/client/client/listers/apps/v1"
 	"sort"
 	"strconv"
 	"strings"
 	"sync"
+	"sync/atomic"
 	"time"
 
 	appsv1 "k8s.io/api/apps/v1"
@@ -201,6 +203,49 @@ func (w setInformerWrap) Informer() cache.SharedIndexInformer {
 	return &capInformer{SharedIndexInformer: w.StatefulSetInformer.Informer(), sink: &w.r.setHandlers}
 }
 
+func (w setInformerWrap) Lister() aslisters.StatefulSetLister {
+	return &noteSetLister{StatefulSetLister: w.StatefulSetInformer.Lister(), r: w.r}
+}
+
+// noteSetLister records every read of a set from the cache during a reconcile (which version the controller
+// saw, and after how many API calls): a reconcile may look at its set more than once.
+type noteSetLister struct {
+	aslisters.StatefulSetLister
+	r *rig
+}
+
+func (l *noteSetLister) StatefulSets(ns string) aslisters.StatefulSetNamespaceLister {
+	return &noteSetNSLister{StatefulSetNamespaceLister: l.StatefulSetLister.StatefulSets(ns), r: l.r}
+}
+
+type noteSetNSLister struct {
+	aslisters.StatefulSetNamespaceLister
+	r *rig
+}
+
+func (l *noteSetNSLister) Get(name string) (*asv1.StatefulSet, error) {
+	s, err := l.StatefulSetNamespaceLister.Get(name)
+	if c := l.r.cur; c != nil && c.logging {
+		sr := SetRead{AfterCalls: len(c.Log), Found: err == nil}
+		if err == nil {
+			sr.ResourceVersion = s.ResourceVersion
+			sr.Paused = s.Annotations["paused-reconcile"] == "true"
+			sr.Deleting = s.DeletionTimestamp != nil
+		}
+		c.setReads = append(c.setReads, sr)
+	}
+	return s, err
+}
+
+// SetRead is one read of the reconciled set from the cache.
+type SetRead struct {
+	AfterCalls      int // number of API calls the reconcile had made before
+	Found           bool
+	ResourceVersion string
+	Paused          bool
+	Deleting        bool
+}
+
 type pvcInformerWrap struct {
 	coreinformers.PersistentVolumeClaimInformer
 	r *rig
@@ -317,6 +362,9 @@ type Cluster struct {
 	clock int64
 	rv    int64
 	uidN  int64
+	// uidTag makes the UIDs of this cluster (and of its clones) unlike those of every other cluster of the process:
+	// whatever the code under test remembers by UID at package level cannot leak from one case into the next
+	uidTag int64
 
 	logging   bool
 	snapTaken bool
@@ -333,6 +381,7 @@ type Cluster struct {
 	ListPerm uint64
 	// lookupFailed: PVCListerHook made a cache lookup fail during the running reconcile
 	lookupFailed bool
+	setReads     []SetRead
 
 	// journal: every pod write since the pod cache last caught up with that pod, in order. A watch
 	// delivers each of them; RefreshPod(notify) replays them through the registered handlers (a
@@ -423,13 +472,15 @@ func (c *Cluster) PendingPodEvents(ns string) (out []string) {
 	return
 }
 
+var clusterSeq int64
+
 // New returns an empty cluster with a (pooled) controller whose caches are empty.
 func New() *Cluster {
 	r := getRig()
 	if r == nil {
 		r = newRig()
 	}
-	c := &Cluster{r: r}
+	c := &Cluster{r: r, uidTag: atomic.AddInt64(&clusterSeq, 1)}
 	r.cur = c
 	c.tracker = &jTracker{ObjectTracker: clienttesting.NewObjectTracker(asscheme.Scheme, asscheme.Codecs.UniversalDecoder()), c: c}
 	c.objReact = clienttesting.ObjectReaction(c.tracker)
@@ -533,7 +584,7 @@ func (c *Cluster) nextRV() string {
 
 func (c *Cluster) NewUID() types.UID {
 	c.uidN++
-	return types.UID(fmt.Sprintf("uid-%d", c.uidN))
+	return types.UID(fmt.Sprintf("uid%d-%d", c.uidTag, c.uidN))
 }
 
 // ---------------------------------------------------------------------------------------------
